@@ -16,7 +16,8 @@
 (*   DetLaws      det(A^T) = det(A), det(A * A^T) = d*d, det(prev * A) =   *)
 (*                det(prev) * det(A)                                       *)
 (* Generator: with VIEW <<A, n>> every distinct matrix within Depth steps  *)
-(* is emitted once, as unary cases (Determinant, Inverse, MulPosition) and *)
+(* is emitted once, as unary cases (Determinant, Inverse, MulPosition; also *)
+(* for the sum A + prev, whose determinant is arbitrary) and               *)
 (* binary cases (Add / Multiply with the inverse, the identity on both     *)
 (* sides, zero, the previous matrix, its own transpose).                   *)
 (* Entry bound: |A[i,j]| <= Bound, |Ai4[i,j]| <= 8*Bound (int32 budget of  *)
@@ -70,6 +71,7 @@ Probes == <<<<0, 0, 0>>, <<1, 0, 0>>, <<0, 1, 0>>, <<0, 0, 1>>, <<2, 0 - 3, 5>>>
 Bin(a, ad, b, bd) == [k |-> "mat2", a |-> a, ad |-> ad, b |-> b, bd |-> bd]
 Cases ==
     << [k |-> "mat1", a |-> A, vs |-> Probes],
+       [k |-> "mat1", a |-> Add4(A, prev), vs |-> Probes],      \* a general integer matrix (any determinant, possibly 0)
        Bin(A, 1, Ai4, 4), Bin(Ai4, 4, A, 1),
        Bin(A, 1, Id4, 1), Bin(Id4, 1, A, 1),
        Bin(A, 1, Zero4, 1), Bin(Zero4, 1, A, 1),
